@@ -170,6 +170,12 @@ pub uninterp spec fn q_of_int(i: int) -> Rational;
 pub uninterp spec fn q_add(a: Rational, b: Rational) -> Rational;
 pub uninterp spec fn q_mul(a: Rational, b: Rational) -> Rational;
 pub uninterp spec fn q_neg(a: Rational) -> Rational;
+pub uninterp spec fn q_div(a: Rational, b: Rational) -> Rational;    // exact quotient, b != 0
+pub uninterp spec fn q_of_float(f: f64) -> Rational;                  // the exact value of a finite double
+// `Rational::try_from(f64).ok()` (dashu): exact for finite doubles, None for NaN and the infinities (ASSUMED)
+#[verifier::external_body]
+pub fn rational_try_from_f64(f: f64) -> (r: Option<Rational>)
+    ensures f_finite(f) ==> r == Some(q_of_float(f)), !f_finite(f) ==> r is None { unimplemented!() }
 pub uninterp spec fn q_abs(a: Rational) -> Rational;
 pub uninterp spec fn q_sign(a: Rational) -> int;      // -1, 0, 1
 pub uninterp spec fn q_floor(a: Rational) -> int;
@@ -179,6 +185,8 @@ impl Rational {
     #[verifier::external_body] pub fn is_negative(&self) -> (r: bool) ensures r == (q_sign(*self) < 0) { unimplemented!() }
     #[verifier::external_body] pub fn is_positive(&self) -> (r: bool) ensures r == (q_sign(*self) > 0) { unimplemented!() }
     #[verifier::external_body] pub fn abs(self) -> (r: Rational) ensures r == q_abs(self) { unimplemented!() }
+    // `Rational::from(x)` for x: Rational (the reflexive From impl of core)
+    pub fn from_q(q: Rational) -> (r: Rational) ensures r == q { q }
     #[verifier::external_body] pub fn floor(&self) -> (r: Integer) ensures r.v() == q_floor(*self) { unimplemented!() }
     #[verifier::external_body] pub fn round(&self) -> (r: Integer) ensures r.v() == q_round(*self) { unimplemented!() }
 }
